@@ -223,7 +223,18 @@ ShellCommand::processDependencyInfoDiscoveredDependencies(BuildSystem& system,
       ++numErrors;
     }
 
-    // Ignore everything but actual inputs.
+    /// Resolve a path the same way as for Makefile-style dependencies:
+    /// relative paths are in relation to the explicitly set working directory,
+    /// or the current working directory when it has not been set.
+    std::string resolvePath(StringRef path) {
+      if (llvm::sys::path::is_absolute(path))
+        return path.str();
+      SmallString<PATH_MAX> absPath = StringRef(command->workingDirectory);
+      llvm::sys::path::append(absPath, path);
+      llvm::sys::fs::make_absolute(absPath);
+      return absPath.str();
+    }
+
     virtual void actOnVersion(StringRef) override { }
     virtual void actOnMissing(StringRef path) override {
       system.getDelegate().commandFoundDiscoveredDependency(command, path, DiscoveredDependencyKind::Missing);
@@ -232,8 +243,9 @@ ShellCommand::processDependencyInfoDiscoveredDependencies(BuildSystem& system,
       system.getDelegate().commandFoundDiscoveredDependency(command, path, DiscoveredDependencyKind::Output);
     }
     virtual void actOnInput(StringRef path) override {
-      ti.discoveredDependency(BuildKey::makeNode(path).toData());
-      system.getDelegate().commandFoundDiscoveredDependency(command, path, DiscoveredDependencyKind::Input);
+      auto resolved = resolvePath(path);
+      ti.discoveredDependency(BuildKey::makeNode(resolved).toData());
+      system.getDelegate().commandFoundDiscoveredDependency(command, resolved, DiscoveredDependencyKind::Input);
     }
   };
 
